@@ -1,5 +1,51 @@
 """property -> rule sets."""
+from . import tables as T
 from .ctx import Ctx
+
+SCOPES = {
+    'C04': ['src/UTMUPS.cpp', 'GeographicLib/UTMUPS.hpp'],
+    'C05': ['src/MGRS.cpp', 'GeographicLib/MGRS.hpp'],
+    'C10': ['src/DMS.cpp', 'GeographicLib/DMS.hpp', 'src/Utility.cpp', 'GeographicLib/Utility.hpp',
+            'src/GeoCoords.cpp', 'GeographicLib/GeoCoords.hpp'],
+    'C18': ['src/Geohash.cpp', 'GeographicLib/Geohash.hpp', 'src/GARS.cpp', 'GeographicLib/GARS.hpp',
+            'src/Georef.cpp', 'GeographicLib/Georef.hpp', 'src/OSGB.cpp', 'GeographicLib/OSGB.hpp'],
+    'C20': ['src/Geoid.cpp', 'GeographicLib/Geoid.hpp'],
+}
+# instance floors (about 80% of the counts confirmed on the verified tree)
+FLOORS = {
+    'C04': dict(throws=14, x3fns=5, x4throws=7),
+    'C05': dict(throws=25, x3fns=3, x4throws=2),
+    'C10': dict(throws=20, x3fns=7, x4throws=0),
+    'C18': dict(throws=24, x3fns=9, x4throws=4),
+    'C20': dict(throws=14, x3fns=0, x4throws=0),
+    'C13': dict(throws=200, x3fns=200, x4throws=15),
+}
+
+
+def _exc_rules(ctx, prop, with_lookup=True):
+    from .rules import exc
+    files = SCOPES.get(prop)
+    fl = FLOORS[prop]
+    out = []
+    r1, nthrow, ncatch = exc.rule_X1(ctx, files)
+    r1.floor('throw sites', nthrow, fl['throws'])
+    out.append(r1)
+    r3, n3 = exc.rule_X3(ctx, files)
+    r3.floor('functions with output arguments', n3, fl['x3fns'])
+    out.append(r3)
+    r4, n4 = exc.rule_X4(ctx, files)
+    r4.floor('throw sites in functions with floating arguments', n4, fl['x4throws'])
+    out.append(r4)
+    if with_lookup:
+        out.append(exc.rule_X2b(ctx))
+    for r in out:
+        if 'A-ELLIPTIC-ARGS' not in ' '.join(r.assumptions) and r.rule == 'X3':
+            r.assumptions.append('A-ELLIPTIC-ARGS: library-internal EllipticFunction constructions pass parameters '
+                                 'in range, so its validation throws are not propagated to callers')
+            r.assumptions.append('A-SINGLETON-NOTHROW: parameterless accessors of function-local static objects '
+                                 'are built from constants their validators accept')
+            r.assumptions.append('allocation failure (bad_alloc) is outside the error contract, as the property says')
+    return out
 
 
 def _c14(ctx):
@@ -7,8 +53,44 @@ def _c14(ctx):
     return eff.run_C14(ctx)
 
 
+def _c13(ctx):
+    from .rules import exc, eff
+    out = _exc_rules(ctx, 'C13')
+    r5, n5 = exc.rule_X5(ctx)
+    r5.floor('validating constructors and setters', n5, 18)
+    out.append(r5)
+    r6, n6 = exc.rule_X6(ctx)
+    r6.floor('loops', n6, 240)
+    out.append(r6)
+    out.append(eff.rule_flags(ctx, 'X8', T.BAD_FLAGS))
+    return out
+
+
+def _c04(ctx):
+    return _exc_rules(ctx, 'C04', with_lookup=False)
+
+
+def _c05(ctx):
+    return _exc_rules(ctx, 'C05')
+
+
+def _c10(ctx):
+    # binary array I/O lives in Utility.hpp but is not text parsing (it is decided under C13)
+    ctx.exclude_q = {'GeographicLib::Utility::readarray', 'GeographicLib::Utility::writearray'}
+    return _exc_rules(ctx, 'C10')
+
+
+def _c18(ctx):
+    return _exc_rules(ctx, 'C18')
+
+
 CHECKS = {
+    'C04': _c04,
+    'C05': _c05,
+    'C10': _c10,
+    'C13': _c13,
     'C14': _c14,
+    'C18': _c18,
 }
 
 
